@@ -70,8 +70,8 @@ def main():
         'setup_cmd': 'cd /verif && ./vf selftest --what setup',
         'hooks': {
             'guard': 'VALJEAN_VERIF',
-            'enable': 'no source hooks: checks import fresh copies of the cosette modules under fake threading/queue/time modules, '
-                      'inject open() into module namespaces and reset class-level caches (DESIGN.md 2.6)',
+            'enable': 'no source hooks are needed: the scheduler checks import fresh copies of the cosette modules under fake threading / queue / time modules, '
+                      'the others drive the public API, real files in scratch directories and reset the class-level caches (DESIGN.md 2.6)',
             'baseline_off_cmd': f'cd /repo && {GIT} /venv/bin/python -m pytest -ra -q -p no:cacheprovider --timeout=900 '
                                 '--continue-on-collection-errors --junitxml=/tmp/valjean_baseline.junit.xml',
             'source_commits': [],
@@ -80,10 +80,10 @@ def main():
         'engines': [
             {'name': 'E-sched', 'path': 'vfw/sched', 'serves_properties': ['C01', 'C02', 'C03', 'C04', 'C19'],
              'kind_free_text': 'stateless exploration of thread interleavings of the real scheduler under a controlled scheduler (preemption-bounded DFS, iterative context bounding)'},
-            {'name': 'E-hist', 'path': 'vfw/core/bfs.py', 'serves_properties': ['C04', 'C13', 'C15', 'C16', 'C17'],
+            {'name': 'E-hist', 'path': 'vfw/core/bfs.py', 'serves_properties': ['C04', 'C08', 'C13', 'C14', 'C15', 'C16'],
              'kind_free_text': 'explicit-state BFS over histories of real API calls with canonicalised states and a lock-step reference model'},
             {'name': 'E-crash', 'path': 'vfw/props', 'serves_properties': ['C11', 'C14'],
-             'kind_free_text': 'enumeration of every byte prefix / torn-write pattern of every written file, real reader run on each'},
+             'kind_free_text': 'enumeration of every byte prefix / torn-write pattern of every written file (and, for C14, a write cut after every k bytes inside the real write path), real reader run on each'},
             {'name': 'E-input', 'path': 'vfw/props', 'serves_properties': ['C05', 'C06', 'C07', 'C08', 'C09', 'C10', 'C12', 'C18', 'C19', 'C20'],
              'kind_free_text': 'bounded exhaustive enumeration of inputs over a small alphabet against a reference model, incl. metamorphic relations'},
         ],
